@@ -12,6 +12,14 @@ ELEMENTARY = ['amplgsl_log1p', 'amplgsl_expm1', 'amplgsl_hypot', 'amplgsl_hypot3
               'amplgsl_sf_legendre_P3', 'amplgsl_sf_gegenpoly_1', 'amplgsl_sf_gegenpoly_2', 'amplgsl_sf_gegenpoly_3',
               'amplgsl_sf_laguerre_1', 'amplgsl_sf_laguerre_2', 'amplgsl_sf_laguerre_3', 'amplgsl_sf_fermi_dirac_m1',
               'amplgsl_sf_fermi_dirac_0', 'amplgsl_sf_bessel_j0', 'amplgsl_sf_bessel_y0']
+# bindings whose value (and usually derivative) is a GSL special function: the functions stay SYMBOLS (`call1 name x`), the theorems
+# of DerivGen.lean are conditional on the classical derivative identities of those symbols (table `dsym` in RDiff.lean)
+SYMBOLIC = ['amplgsl_sf_bessel_J0', 'amplgsl_sf_bessel_J1', 'amplgsl_sf_bessel_Y0', 'amplgsl_sf_bessel_Y1', 'amplgsl_sf_bessel_I0',
+            'amplgsl_sf_bessel_I1', 'amplgsl_sf_bessel_K0', 'amplgsl_sf_bessel_K1', 'amplgsl_sf_bessel_K0_scaled', 'amplgsl_sf_bessel_K1_scaled',
+            'amplgsl_sf_airy_Ai', 'amplgsl_sf_airy_Bi', 'amplgsl_sf_dawson', 'amplgsl_sf_erf_Z', 'amplgsl_sf_erf_Q', 'amplgsl_sf_hazard',
+            'amplgsl_sf_expint_E1', 'amplgsl_sf_expint_E2', 'amplgsl_sf_expint_Ei', 'amplgsl_sf_Si', 'amplgsl_sf_Ci', 'amplgsl_sf_expint_3',
+            'amplgsl_sf_fermi_dirac_1', 'amplgsl_sf_fermi_dirac_2', 'amplgsl_sf_fermi_dirac_3half', 'amplgsl_sf_gamma', 'amplgsl_sf_psi_1',
+            'amplgsl_cdf_ugaussian_P', 'amplgsl_ran_ugaussian_pdf']
 LIBM = {'exp': 'exp', 'log': 'log', 'sin': 'sin', 'cos': 'cos', 'sqrt': 'sqrt'}
 
 
@@ -120,7 +128,16 @@ class FFn:
             self.err('use of %s, which has no real-valued definition here' % n0['referencedDecl'].get('name'), n0)
         if k == 'CallExpr':
             cal = self.callee(n0)
-            args = [self.expr(a) for a in ks[1:]]
+            anodes = list(ks[1:])
+            # gsl_f(x, GSL_PREC_DOUBLE): the precision mode is not a mathematical argument; gsl_f(2, x): a literal order names the function
+            while anodes and (anodes[-1].get('type', {}).get('qualType') in ('gsl_mode_t',) or
+                              strip(anodes[-1]).get('type', {}).get('qualType') == 'gsl_mode_t'):
+                anodes.pop()
+            if cal and cal.startswith('gsl_') and len(anodes) == 2 and strip(anodes[0]).get('kind') == 'IntegerLiteral' \
+                    and strip(anodes[0]).get('type', {}).get('qualType') == 'int':
+                cal = '%s#%s' % (cal, strip(anodes[0])['value'])
+                anodes = anodes[1:]
+            args = [self.expr(a) for a in anodes]
             if cal in LIBM and len(args) == 1:
                 return (LIBM[cal], args[0])
             if cal and cal.startswith('gsl_') and 1 <= len(args) <= 3:
@@ -192,7 +209,7 @@ def emit(decls, regs):
     out = ['/- GENERATED by translators/tr_gsl.py (tr_gsl_formulas.py) from src/gsl/amplgsl.cc. Do not edit: regenerated on every check run. -/',
            'import MpVerif.C16.RExpr', 'namespace MpVerif.Gen.GslFormulas', 'open MpVerif.C16', '']
     names = []
-    for f in ELEMENTARY:
+    for f in ELEMENTARY + SYMBOLIC:
         if f not in decls or f not in nargs:
             raise TranslateError('elementary binding %s is gone' % f)
         v, d, h = FFn(decls[f], nargs[f]).translate()
